@@ -498,6 +498,10 @@ def lru_cache_with_expiry(
 
         # Call the function and cache the result
         result = func(*args, **kwargs)
+        # a nested or concurrent call for the same key may have stored it already; assigning
+        # to an existing key keeps its old position, so drop it first: the new entry is then
+        # the most recently used one
+        cache.pop(key, None)
         cache[key] = (current_time, result)
 
         # Maintain the cache size
